@@ -121,23 +121,9 @@ def run(prop, case, exception_is_violation=False):
         # 'same per-atom annotations' as the fragment DEFINED under the node's name: judged against the written text
         # (independent annotation model), not against what the library's own fragment reader made of it
         cg, aa = res['steps'][-1]          # the annotated texts are the definitions of the last (atomistic) level
-        want = case['atom_annotations']
-        seen = 0
-        for n, d in aa.nodes(data=True):
-            m = d.get('mapping') or []
-            if len(m) != 1:
-                continue
-            exp = want.get('%s|%s' % (m[0][0], m[0][1]))
-            if exp is None:
-                if d.get('element') != 'H' and d.get('weight', 1) != 1:
-                    viol.append(V('c02.annotation_on_unannotated_atom', f"{MC.describe_case(case)} :: atom {n} (atom {m[0][1]} of {m[0][0]}) has weight {d.get('weight')!r} but no annotation was written on it"))
-                    break
-                continue
-            seen += 1
-            bad = {k: (d.get(k, '<missing>'), v) for k, v in exp.items() if d.get(k, '<missing>') != v}
-            if bad:
-                viol.append(V('c02.copy_annotation', f"{MC.describe_case(case)} :: atom {n} (atom {m[0][1]} of {m[0][0]}): (found, written) {bad}"))
-                break
+        found, seen = MC.check_atom_annotations(case, aa, 'c02')
+        for clause, msg in found:
+            viol.append(V(clause, f"{MC.describe_case(case)} :: {msg}"))
         out['counters']['annotated_atoms_checked'] = seen
     if prop == 'C03' and res['steps'] and case['kind'] in ('cut', 'virtual', 'coarse_cut'):
         # these workloads write one dedicated, uniquely labelled pair per unit of base-edge order:
